@@ -1,8 +1,7 @@
 package pbfgen
 
 import (
-	"bytes"
-	"encoding/gob"
+	"encoding/json"
 
 	"pgregory.net/rapid"
 )
@@ -67,6 +66,32 @@ type Opt struct {
 	NoHeader bool
 	// Small keeps blocks tiny (C06 cut enumeration).
 	Small bool
+	// Rich makes every block carry a dense group, a way group and a relation
+	// group with every optional part present (so every damage class applies).
+	Rich bool
+}
+
+// genRichBlock draws a block in which every optional part is present.
+func genRichBlock(t *rapid.T) *Block {
+	b := &Block{Zlib: rapid.Bool().Draw(t, "zlib")}
+	i32 := func(l string, hi int32) *int32 { v := rapid.Int32Range(1, hi).Draw(t, l); return &v }
+	i64 := func(l string, hi int64) *int64 { v := rapid.Int64Range(1, hi).Draw(t, l); return &v }
+	str := func(l string) *string { s := rapid.SampledFrom([]string{"u", "user1", "é"}).Draw(t, l); return &s }
+	tr := true
+	info := func() *Info {
+		return &Info{Version: i32("ver", 100), Timestamp: i64("ts", 2000000000), Changeset: i64("cs", 1000), UID: i32("uid", 1000), User: str("user"), Visible: &tr}
+	}
+	d := &Dense{HasInfo: true, CVersion: true, CTimestamp: true, CChangeset: true, CUID: true, CUser: true, CVisible: true, HasKeyVals: true}
+	n := rapid.IntRange(1, 3).Draw(t, "nn")
+	for j := 0; j < n; j++ {
+		d.Nodes = append(d.Nodes, Node{ID: rapid.Int64Range(1, 1000).Draw(t, "id"), Lat: rapid.Int64Range(-1000, 1000).Draw(t, "lat"), Lon: rapid.Int64Range(-1000, 1000).Draw(t, "lon"),
+			Version: 1, Timestamp: 1000, Changeset: 5, UID: 7, User: "u", Visible: true, Tags: []Tag{{"k", rapid.SampledFrom([]string{"v", "w"}).Draw(t, "tv")}}})
+	}
+	w := Way{ID: rapid.Int64Range(1, 1000).Draw(t, "wid"), Tags: []Tag{{"highway", "x"}}, Info: info(), Refs: []int64{1, 2}, Lats: []int64{10, 20}, Lons: []int64{30, 40}}
+	r := Relation{ID: rapid.Int64Range(1, 1000).Draw(t, "rid"), Tags: []Tag{{"type", "route"}}, Info: info(),
+		Members: []Member{{Type: rapid.Int32Range(0, 2).Draw(t, "mt"), Ref: 5, Role: "outer"}, {Type: 1, Ref: 6, Role: ""}}}
+	b.Groups = []Group{{Dense: d}, {Ways: []Way{w}}, {Relations: []Relation{r}}}
+	return b
 }
 
 func gInfo(t *rapid.T, dg int64) *Info {
@@ -109,16 +134,17 @@ func gID(t *rapid.T, l string) int64 {
 
 // GenBlock draws one data block.
 func GenBlock(t *rapid.T, o Opt) *Block {
+	if o.Rich {
+		return genRichBlock(t)
+	}
 	b := &Block{Zlib: rapid.Bool().Draw(t, "zlib"), RawSizeOnRaw: rapid.Bool().Draw(t, "rawsize")}
 	b.Granularity = optI32(t, "gran", 1, 10000)
 	b.DateGranularity = optI32(t, "dgran", 1, 60000)
 	b.LatOffset = optI64(t, "latoff", -1000000000, 1000000000)
 	b.LonOffset = optI64(t, "lonoff", -1000000000, 1000000000)
 	if rapid.IntRange(0, 3).Draw(t, "index?") == 0 {
+		b.HasIndexData = true
 		b.IndexData = rapid.SliceOfN(rapid.Byte(), 0, 12).Draw(t, "index")
-		if b.IndexData == nil {
-			b.IndexData = []byte{}
-		}
 	}
 	if rapid.Bool().Draw(t, "shuffle?") {
 		b.ShuffleSeed = rapid.Int64Range(1, 1<<30).Draw(t, "shuffle")
@@ -233,12 +259,12 @@ func GenBlock(t *rapid.T, o Opt) *Block {
 
 // Clone deep-copies a block.
 func (b *Block) Clone() *Block {
-	var buf bytes.Buffer
-	if err := gob.NewEncoder(&buf).Encode(b); err != nil {
+	buf, err := json.Marshal(b)
+	if err != nil {
 		panic(err)
 	}
 	out := &Block{}
-	if err := gob.NewDecoder(&buf).Decode(out); err != nil {
+	if err := json.Unmarshal(buf, out); err != nil {
 		panic(err)
 	}
 	return out
@@ -388,7 +414,7 @@ func GenFile(t *rapid.T, o Opt) *File {
 	nb := rapid.IntRange(o.MinBlocks, o.MaxBlocks).Draw(t, "nblocks")
 	for i := 0; i < nb; i++ {
 		var b *Block
-		if i > 0 && rapid.IntRange(0, 2).Draw(t, "flip?") != 0 {
+		if i > 0 && !o.Rich && rapid.IntRange(0, 2).Draw(t, "flip?") != 0 {
 			b = Flip(t, f.Blocks[i-1])
 		} else {
 			b = GenBlock(t, o)
